@@ -1,12 +1,17 @@
 From Coq Require Extraction ExtrOcamlBasic.
-From PV Require Import Lib.Bytes Model.FsProto Spec.CrashSpec.
+From PV Require Import Lib.Bytes Model.FsProto Model.FsLinks Spec.CrashSpec Model.SaveLog.
 
 (* the final world of a run with an optional fault plan *)
 Definition run_plan (s : state) (prog : list action) (plan : option (nat * fault)) : world :=
   run prog (init_world s plan).
 
+(* the final world of a link-aware run under a plan (none / failing call / crash point) *)
+Definition lrun_plan (s : state) (prog : list laction) (plan : lplan) : lworld :=
+  lrun prog (init_lworld s plan).
+
 (* oracle/common.ml refers to the extracted type z *)
 Definition z_of_mode (m : N) : Z := Z.of_N m.
 
 Extraction "C05_model.ml" z_of_mode prog_ops exec check_crashes first_bad tmp_freeb run_plan
-  inplace_ops remove_rename_ops copyback_ops versions foreign_bad.
+  inplace_ops remove_rename_ops copyback_ops versions foreign_bad lrun_plan l_unnamed_changed
+  err_message error_line tech_line.
